@@ -12,6 +12,7 @@ import (
 	"reflect"
 	"runtime"
 	"runtime/debug"
+	"sort"
 	"strings"
 	gosync "sync"
 	"sync/atomic"
@@ -918,3 +919,25 @@ func (m *RWMutex) rfree() bool { return !m.writer }
 
 //go:norace
 func (w *WaitGroup) zero() bool { return w.n <= 0 }
+
+// Keys returns the keys of m, sorted when the key type has a natural order (strings, integers);
+// rewritten `for k, v := range x.mapField` loops iterate over it so that the iteration order is the
+// same in every execution. Keys of other kinds (pointers, interfaces) keep Go's native order.
+func Keys[K comparable, V any](m map[K]V) []K {
+	keys := make([]K, 0, len(m))
+	for k := range m {
+		keys = append(keys, k)
+	}
+	if len(keys) < 2 {
+		return keys
+	}
+	switch reflect.TypeOf(keys[0]).Kind() {
+	case reflect.String:
+		sort.Slice(keys, func(i, j int) bool { return reflect.ValueOf(keys[i]).String() < reflect.ValueOf(keys[j]).String() })
+	case reflect.Int, reflect.Int8, reflect.Int16, reflect.Int32, reflect.Int64:
+		sort.Slice(keys, func(i, j int) bool { return reflect.ValueOf(keys[i]).Int() < reflect.ValueOf(keys[j]).Int() })
+	case reflect.Uint, reflect.Uint8, reflect.Uint16, reflect.Uint32, reflect.Uint64, reflect.Uintptr:
+		sort.Slice(keys, func(i, j int) bool { return reflect.ValueOf(keys[i]).Uint() < reflect.ValueOf(keys[j]).Uint() })
+	}
+	return keys
+}
